@@ -183,6 +183,11 @@ class Gen:
         if k < 0.62:
             return {"t": "just", "oid": self.oid(), "v": self.hostile(depth + 1)}
         if k < 0.66:
+            if k < 0.635 and depth <= 1:
+                # an instance of some dataclass (one field), as a value like any other
+                c = self.new_class(1, fields=[["q", None]])
+                return {"t": "inst", "oid": self.oid(), "doid": self.oid(), "cls": c, "names": ["q"],
+                        "vals": [self.atom(r.choice(["int", "str", "none"]))]}
             c = self.new_class(0, hashable=self.chance(0.5))
             return {"t": "inst", "oid": self.oid(), "doid": 0, "cls": c, "names": [], "vals": []}
         n = r.choice([0, 1, 2, 3])
